@@ -3,9 +3,10 @@
    Statements only; proofs live in Proofs/SimplIntuitTerm.v.
    Proved here: idempotence for ANY rewrite (from the loop exit), and termination for the
    INTUITIONISTIC and ht (= INTUITIONISTIC ++ HT) portfolios with the explicit fuel bound
-   mu F + 1.  NOT claimed here: termination of the classic portfolio (its scope-extension,
-   domain-restriction and substitution rules do not decrease mu).  The second half of C18
-   (byte-identical outputs across processes) is checked by the cli cluster, not here. *)
+   mu F + 1.  Termination of the CLASSIC portfolio is proved in Properties/C18cls.v (C18_term_cls:
+   its scope-extension, domain-restriction and substitution rules do not decrease mu, so a
+   lexicographic 5-tuple is used there).  The second half of C18 (byte-identical outputs across
+   processes) is SAMPLING by the cli cluster (part C18det of the check), no theorem. *)
 From Coq Require Import List String ZArith.
 Import ListNotations.
 From Anthem Require Import Syntax.Fol Model.Apply Model.Strategy Model.SimplIntuit Proofs.SimplIntuitTerm.
